@@ -7,6 +7,8 @@ static struct cmd cmds[] = {
   {"c10", cmd_c10},
   {"c15", cmd_c15},
   {"c14", cmd_c14},
+  {"c03", cmd_c03},
+  {"c03e", cmd_c03e},
   {NULL, NULL}
 };
 int main(int argc, char **argv) {
